@@ -6,9 +6,38 @@
 #include <stdexcept>
 #include <chrono>
 
+#include <type_traits>
+
 #include "awkward/forth/ForthMachine.h"
 
 namespace awkward {
+  // Floor division and modulo (as in gforth) without the two traps of C++'s
+  // truncating operators: INT_MIN / -1 (SIGFPE) and overflow of d + n % d.
+  template <typename T>
+  static inline T forth_floor_div(T n, T d) {
+    if (d == -1) {
+      typedef typename std::make_unsigned<T>::type U;
+      return (T)((U)0 - (U)n);   // wraps at the machine's integer width
+    }
+    T q = n / d;
+    if ((n % d != 0)  &&  ((n < 0) != (d < 0))) {
+      q--;
+    }
+    return q;
+  }
+
+  template <typename T>
+  static inline T forth_floor_mod(T n, T d) {
+    if (d == -1) {
+      return 0;
+    }
+    T r = n % d;
+    if (r != 0  &&  ((r < 0) != (d < 0))) {
+      r += d;
+    }
+    return r;
+  }
+
   // Instruction values are preprocessor macros to be equally usable in 32-bit and
   // 64-bit instruction sets.
 
@@ -3548,8 +3577,7 @@ namespace awkward {
               }
               // Forth (gforth, at least) does floor division; C++ does integer division.
               // This makes a difference for negative numerator or denominator.
-              T tmp = pair[0] / pair[1];
-              pair[0] = tmp * pair[1] == pair[0] ? tmp : tmp - ((pair[0] < 0) ^ (pair[1] < 0));
+              pair[0] = forth_floor_div<T>(pair[0], pair[1]);
               break;
             }
 
@@ -3565,7 +3593,7 @@ namespace awkward {
               }
               // Forth (gforth, at least) does modulo; C++ does remainder.
               // This makes a difference for negative numerator or denominator.
-              pair[0] = (pair[1] + (pair[0] % pair[1])) % pair[1];
+              pair[0] = forth_floor_mod<T>(pair[0], pair[1]);
               break;
             }
 
@@ -3581,11 +3609,8 @@ namespace awkward {
                 return;
               }
               // See notes on division and modulo/remainder above.
-              T tmp = one / two;
-              stack_buffer_[stack_depth_ - 1] =
-                  tmp * two == one ? tmp : tmp - ((one < 0) ^ (two < 0));
-              stack_buffer_[stack_depth_ - 2] =
-                  (two + (one % two)) % two;
+              stack_buffer_[stack_depth_ - 1] = forth_floor_div<T>(one, two);
+              stack_buffer_[stack_depth_ - 2] = forth_floor_mod<T>(one, two);
               break;
             }
 
